@@ -265,8 +265,14 @@ def extra_items():
             mod = __import__(modname, fromlist=["ITEMS"])
         except ImportError:
             continue
+        except Exception as e:      # a broken translator module must not take the others down
+            IMPORT_ERRORS[modname] = f"{type(e).__name__}: {e}"[:300]
+            continue
         items.extend(mod.ITEMS)
     return items
+
+
+IMPORT_ERRORS = {}
 
 
 def regenerate():
@@ -290,6 +296,8 @@ def regenerate():
         tmp = OUT + ".tmp"
         open(tmp, "w").write(text)
         os.replace(tmp, OUT)
+    for k, v in IMPORT_ERRORS.items():
+        refused["module:" + k] = v
     return {"items": ok, "refused": refused, "changed": changed,
             "sha1": hashlib.sha1(text.encode()).hexdigest()}
 
